@@ -2,8 +2,8 @@
 
 PARTIAL by design.  Decided by:
  * theorems Props/C11.v over Model/Bounds.v: for yq's own index/bounds logic
-   (slice bounds, index padding, collect-object rotation, sort comparator,
-   repeat limits, first-result accesses) `guard -> no panic` with the guard the
+   (slice bounds, index padding, collect-object rotation, repeat limits,
+   first-result accesses) `guard -> no panic` with the guard the
    exact complement of the panic condition, termination of the glob matcher on
    explicit fuel with a sufficiency lemma, termination of alias following on
    acyclic graphs, and one `_refuted` witness per site the model shows reachable;
@@ -609,37 +609,40 @@ def real_binary(argv, stdin, timeout=10, mem_mb=3000):
 
 
 def inventory_tie(sites):
-    """The inventory must describe the source that is being checked: every
-    recorded code fragment still occurs in its file, and no explicit panic( was
-    added or removed."""
+    """The inventory must describe the source that is being checked: the code
+    fragment of every site that is only *believed* unreachable still occurs in
+    its file (a reachable site may disappear: that is a fix), and every explicit
+    panic( of pkg/yqlib is listed."""
     problems = []
     cache = {}
-    for s in sites:
-        f = s.get("inv_file") or s.get("file")
-        if not f or not s.get("code"):
-            continue
-        path = None
+
+    def src(f):
         for cand in (os.path.join(vlib.REPO, "pkg/yqlib", f), os.path.join(vlib.REPO, "cmd", f), os.path.join(vlib.REPO, f)):
             if os.path.exists(cand):
-                path = cand
-                break
-        if path is None:
-            problems.append("inventory names a missing file: " + f)
+                if cand not in cache:
+                    cache[cand] = open(cand, encoding="utf-8", errors="replace").read()
+                return cache[cand]
+        return None
+    for s in sites:
+        f = s.get("inv_file") or s.get("file")
+        if not f or not s.get("code") or s.get("status") != "believed-unreachable":
             continue
-        if path not in cache:
-            cache[path] = re.sub(r"\s+", "", open(path, encoding="utf-8", errors="replace").read())
-        if re.sub(r"\s+", "", s["code"]) not in cache[path]:
-            problems.append("inventory entry %s:%s `%s` no longer occurs in the file" % (f, s.get("line"), s["code"]))
-    n_panic = 0
+        text = src(f)
+        if text is None:
+            problems.append("inventory names a missing file: " + f)
+        elif re.sub(r"\s+", "", s["code"]) not in re.sub(r"\s+", "", text):
+            problems.append("inventory entry %s:%s `%s` (believed unreachable) no longer occurs in the file" % (f, s.get("line"), s["code"]))
+    listed = {}
+    for s in sites:
+        f = s.get("inv_file") or s.get("file")
+        if s.get("kind") == "explicit" and "/" not in f and (s.get("code") or s.get("desc") or "").startswith("panic("):
+            listed.setdefault(f, set()).add(s.get("line"))
     d = os.path.join(vlib.REPO, "pkg/yqlib")
     for fn in sorted(os.listdir(d)):
         if fn.endswith(".go") and not fn.endswith("_test.go"):
-            src = open(os.path.join(d, fn), encoding="utf-8", errors="replace").read()
-            n_panic += len(re.findall(r"(?<![\w.])panic\(", src))
-    inv = {(s["file"], s["line"]) for s in sites if s.get("kind") == "explicit" and "/" not in s["file"]
-           and (s.get("code") or s.get("desc") or "").startswith("panic(")}
-    if n_panic != len(inv):
-        problems.append("pkg/yqlib has %d explicit panic( calls, the inventory lists %d" % (n_panic, len(inv)))
+            n = len(re.findall(r"(?<![\w.])panic\(", open(os.path.join(d, fn), encoding="utf-8", errors="replace").read()))
+            if n > len(listed.get(fn, ())):
+                problems.append("%s has %d explicit panic( calls, the inventory lists %d" % (fn, n, len(listed.get(fn, ()))))
     return problems
 
 
@@ -746,19 +749,6 @@ def correspondence(chk, thorough):
         req = mk_req('"ab" * %d | length' % n, "0\n", "yaml", "json")
         cs.append(("(%s, %s)" % (zc(2), zc(n)), req, lambda x: x.strip()))
     groups.append(("repeat", "c_repeat", cs))
-
-    # --- sort comparator, !!int branch
-    cs = []
-    vals = ["1", "2", "-3", "abc", "0x10", "0xG", "0o7", "0o9", "1_0", "''", "+1", "1.5", "0x", "-0x1", "1e3", "99999999999999999999", "0b1", "~"]
-    for a in vals:
-        for b in vals:
-            doc = "[!!int %s, !!int %s]" % (a, b)
-            req = mk_req("sort | length", doc, "yaml", "json")
-            ta = "" if a == "''" else a
-            tb = "" if b == "''" else b
-            # sort.Stable on two elements calls Less(1, 0): lhs is the second element
-            cs.append(("(%s, %s)" % (vlib.coq_str(tb), vlib.coq_str(ta)), req, lambda x: ""))
-    groups.append(("sortint", "c_sort_int", cs))
 
     allreqs = [c[1] for g in groups for c in g[2]]
     resp = c11_parallel(allreqs)
@@ -1010,7 +1000,7 @@ def run(chk):
         checker_cmd="make -C coq Props/C11.vo (coqc 8.16.1, full .vo) + coqc work/C11/corr_*_*.v (vm_compute)",
         rule="recorded inputs of every reachable panic site (harness + real binary); correspondence of outcome class and value for "
              "slice bounds (all (len,first,second) in [0,4]x[-6,6]^2 + seeded incl. int64 extremes), index padding, glob matching, parseInt texts, "
-             "repeat counts, sort !!int comparator; search: three expression streams (grammar over the lexer's operator vocabulary, mutated, "
+             "repeat counts; search: three expression streams (grammar over the lexer's operator vocabulary, mutated, "
              "arbitrary bytes) x generated YAML documents (tags that lie, anchors/aliases/merge keys, multi-doc), and for each of %d input formats "
              "valid/truncated/corrupted/deep/arbitrary-byte inputs x %d output formats. A search case is non-trivial when it got past parsing "
              "(class ok, or any class for format inputs); distinct by (expression, input, formats)." % (len(IN_FORMATS), len(OUT_FORMATS)),
@@ -1018,7 +1008,6 @@ def run(chk):
             "PARTIAL: the theorems are about Model/Bounds.v (yq's own bounds, restart and alias-following logic restated by hand, tied by sampled correspondence); "
             "the evaluator as a whole, the third-party parsers (yaml.v3, goccy/go-json, encoding/xml, go-toml, gopher-lua, properties, encoding/csv), "
             "regexp/time and the Go runtime (stack, allocator) are searched, not modelled",
-            "strconv.ParseFloat is a Section variable in the sort comparator model (float_parses)",
             "harness op c11 (recover + deadline + memory watchdog, process exit on runaway) and the python classification of panic sites",
             "checks/props/c11_sites.json: hand-made inventory of syntactically possible panic sites; 'believed-unreachable' entries are reading, not proof, "
             "except those with a theorem (slice number Front, traverse RHS Front, traverse index)"],
